@@ -28,7 +28,7 @@ Definition run_graph (g : graph) : sx :=
 Definition run (c : case) : sx :=
   match c with
   | CRun p o kw full _ =>
-      if wf_pipelineb p then sx_run (Pipe.run body pick p o kw full) else bad_case
+      if wf_pipelineb p then sx_run (Pipe.run_checked body pick p o kw full) else bad_case
   | CArgs p o =>
       if wf_pipelineb p then
         SL [sx_of_result (fun cs => SL (map sx_strs cs)) (arg_combinations p o);
@@ -39,7 +39,7 @@ Definition run (c : case) : sx :=
         match root_args p o with
         | Err e => SL [SErr e; SL []]
         | Ok ra =>
-            if length ra =? length vals then sx_run (Pipe.run body pick p o (combine ra vals) false)
+            if length ra =? length vals then sx_run (Pipe.run_checked body pick p o (combine ra vals) false)
             else SL [SErr TypeError; SL []]
         end
       else bad_case
